@@ -107,7 +107,11 @@ Inductive op :=
 | OExpire                                              (* the timeout of every pending short-timeout call fires *)
 | OFrame (data : bytes)                                (* one frame body arrives from the peer *)
 | OOverlong                                            (* a length prefix above the maximum message size arrives *)
-| OPeerClose.                                          (* the peer closes the stream *)
+| OPeerClose                                           (* the peer closes the stream *)
+(* operations toward a process on the connected node (Node::send / link / demonitor with a remote pid): one frame *)
+| ORemote (o : sop)
+| ORemoteUnlink (a b : pidr)                           (* Node::unlink: the unlink id is the next value of the reference counter *)
+| ORemoteMonitor (a b : pidr).                         (* Node::monitor: a fresh reference, then the frame *)
 
 Inductive out :=
 | UOk | UErr | UPid (p : pidr) | UNone | URef (r : term) | UUnit.
@@ -119,6 +123,19 @@ Definition make_reference (st : nstate) : term * N :=
 Definition with_refctr (st : nstate) (c : N) : nstate :=
   {| n_name := n_name st; n_alloc := n_alloc st; n_refctr := c; n_procs := n_procs st; n_names := n_names st; n_gone := n_gone st;
      n_pending := n_pending st; n_results := n_results st; n_calls := n_calls st; n_connected := n_connected st; n_wrote := n_wrote st |}.
+
+Definition with_wrote (st : nstate) (w : list bytes) : nstate :=
+  {| n_name := n_name st; n_alloc := n_alloc st; n_refctr := n_refctr st; n_procs := n_procs st; n_names := n_names st; n_gone := n_gone st;
+     n_pending := n_pending st; n_results := n_results st; n_calls := n_calls st; n_connected := n_connected st; n_wrote := w |}.
+
+(* the connection-level operation under the connection's lock: one frame, or an error and nothing written *)
+Definition remote_write (st : nstate) (o : sop) : nstate * out :=
+  if n_connected st then
+    match send_frame 0 [] o with
+    | Some f => (with_wrote st (n_wrote st ++ [f]), UOk)
+    | None => (st, UErr)
+    end
+  else (st, UErr).
 
 (* route_message: what an inbound control message does *)
 Definition pid_of (t : term) : option pidr := match t with TPid p => Some p | _ => None end.
@@ -289,6 +306,18 @@ Definition step (cfg : dcfg) (st : nstate) (o : op) : nstate * out :=
       if n_connected st then (on_frame cfg st data, UUnit) else (st, UUnit)
   | OOverlong => (disconnect st, UUnit)
   | OPeerClose => (disconnect st, UUnit)
+  | ORemote o => remote_write st o
+  | ORemoteUnlink a b =>
+      if n_connected st then
+        let id := n_refctr st in
+        remote_write (with_refctr st ((id + 1) mod 4294967296)) (SUnlink a b id)
+      else (st, UErr)
+  | ORemoteMonitor a b =>
+      let '(r, c) := make_reference st in
+      match remote_write (with_refctr st c) (SMonitor a b r) with
+      | (st', UOk) => (st', URef r)
+      | (st', _) => (st', UErr)
+      end
   end.
 
 Definition run (cfg : dcfg) (st : nstate) (ops : list op) : nstate := fold_left (fun s o => fst (step cfg s o)) ops st.
